@@ -202,6 +202,7 @@ impl Model {
         let mut out = String::new();
         let mut err: Option<&'static str> = None;
         let mut judged = true;
+        let mut bare = false;
         let mut reach: Vec<&'static str> = vec![];
         for op in ops {
             if err.is_some() {
@@ -477,9 +478,16 @@ impl Model {
                     text.push_str(s);
                     judged = false;
                 }
+                Op::RawLine(s) => {
+                    text.push_str(s);
+                    judged = false;
+                    bare = true;
+                }
             }
         }
-        text.push('%');
+        if !bare {
+            text.push('%');
+        }
         Rendered {
             text,
             expect_out: out,
